@@ -15,14 +15,14 @@ from . import c05
 ID = "C16"
 
 META = {
-    "rule": "program family = 8 custom error functions that define ONLY calc_error (distance, range to a point, relative pose, prior, landmark observation with offset, ternary midpoint, "
+    "rule": "program family = 10 custom error functions (incl. one with derivatives of size 1e-7 and one that overrides the differentiation step) that define ONLY calc_error (distance, range to a point, relative pose, prior, landmark observation with offset, ternary midpoint, "
     "ternary equal spacing, scalar bearing-free range) instantiated over every admissible pose-type combination (26 programs). (jac) every program x every vertex-pose tuple of the "
     "pose alphabet (pairs; triples on a thinned alphabet): the library's numerical Jacobians (BaseEdge.calc_jacobians) vs the 5-point derivative, one Jacobian per vertex of shape "
     "len(e) x COMPACT, accuracy of a 1e-6 forward difference; poses restored bitwise; (opt) SLAM families of C05 (n in {3,6,12}) with every odometry / landmark edge replaced by its "
     "numerical-Jacobian twin + distance edges: same optimum as the analytic graph (1e-5) and the C05 oracles (independent Newton decrement, ground truth). "
     "non-trivial = Jacobian with an entry outside {0,+-1}",
     "assumptions": ["forward-difference accuracy bound: 1e-5 x (1 + lever arms) x (1 + 1/distance for distance-like programs) + 1e-8 |e| + 1e-8 |coordinates| (rounding); every configuration is also evaluated shifted by (5000,-3000,2000) and after moving vertex 0", "finite program family and alphabets; optimisation inside the C05 radii"],
-    "required_classes": ["prog:distance", "prog:range", "prog:relpose", "prog:prior", "prog:landmark", "prog:midpoint", "prog:spacing", "arity:1", "arity:2", "arity:3", "far_cluster", "moved_then_requested_again", "kind:SE3", "kind:SE2", "opt:numeric_twin", "opt:distance_edges"],
+    "required_classes": ["prog:distance", "prog:range", "prog:relpose", "prog:prior", "prog:landmark", "prog:midpoint", "prog:spacing", "prog:scaled", "prog:finestep", "arity:1", "arity:2", "arity:3", "far_cluster", "moved_then_requested_again", "kind:SE3", "kind:SE2", "opt:numeric_twin", "opt:distance_edges"],
     "bounds": {"quick": "quick pose alphabets (pairs), 8-pose thinned alphabet (triples); SLAM n in {3,6}", "thorough": "thorough alphabets thinned to 60 poses (pairs), 12 (triples); SLAM n in {3,6,12}"},
 }
 
@@ -63,6 +63,20 @@ class LandmarkObs(_Prog):
         return (((self.vertices[0].pose + self.offset).inverse + self.vertices[1].pose) - self.estimate).to_compact()
 
 
+class ScaledRel(_Prog):
+    """a perfectly smooth error whose derivatives are tiny (1e-7): e = 1e-7 ((p2 - p1).position - estimate)."""
+
+    def calc_error(self):
+        d = (self.vertices[1].pose - self.vertices[0].pose).position
+        return 1e-7 * (d - self.estimate[: len(d)])
+
+
+class FineStep(RelPose):
+    """same program as RelPose, but the class overrides the documented differentiation step."""
+
+    _NUMERICAL_DIFFERENTIATION_EPSILON = 1e-7
+
+
 class Midpoint(_Prog):
     def calc_error(self):
         a, b, c = (v.pose.position for v in self.vertices)
@@ -87,6 +101,9 @@ def programs():
         out.append(("range", Range, [k, I.POINT_OF[k]]))
     for k in I.KINDS:
         out.append(("landmark", LandmarkObs, [k, I.POINT_OF[k]]))
+    for k in ("R2", "SE2", "SE3"):
+        out.append(("scaled", ScaledRel, [k, k]))
+        out.append(("finestep", FineStep, [k, k]))
     out.append(("midpoint", Midpoint, ["SE2", "R2", "SE2"]))
     out.append(("midpoint", Midpoint, ["SE3", "R3", "R3"]))
     out.append(("midpoint", Midpoint, ["SE3", "SE2", "R2"]))
@@ -102,7 +119,9 @@ FAR = [5000.0, -3000.0, 2000.0]
 def _estimate(name, kinds, seed):
     if name in ("distance", "range", "spacing"):
         return 1.7 if name != "spacing" else 0.3
-    if name == "relpose":
+    if name == "scaled":
+        return np.array([0.1, -0.2, 0.3])
+    if name in ("relpose", "finestep"):
         return I.mk_pose(kinds[0], A.poses(kinds[0], "quick", seed)[4 if kinds[0] in ("SE2", "SE3") else 1])
     if name == "prior":
         return I.mk_pose(kinds[0], A.poses(kinds[0], "quick", seed)[5 if kinds[0] in ("SE2", "SE3") else 2])
@@ -245,11 +264,12 @@ def _eval_jac(case):
         d0 = _min_distance(name, e)
         if d0 < 0.05:
             return [], {"classes": classes, "ratio": 0.0, "ops": 1, "nontrivial": False}
-    if name in ("relpose", "prior") and kinds[0] == "SE2" and abs(abs(e0[2]) - math.pi) < 0.02:
+    if name in ("relpose", "prior", "finestep") and kinds[0] == "SE2" and abs(abs(e0[2]) - math.pi) < 0.02:
         # the SE(2) angular error wraps here: the error function itself is discontinuous (not a smooth program at this point)
         return [], {"classes": classes + ["excluded:se2_wrap_set"], "ratio": 0.0, "ops": 1, "nontrivial": False}
-    angle_idx = (2,) if (name in ("relpose", "prior") and kinds[0] == "SE2") else ()
-    rot = slice(3, 6) if (name in ("relpose", "prior") and kinds[0] == "SE3") else None
+    angle_idx = (2,) if (name in ("relpose", "prior", "finestep") and kinds[0] == "SE2") else ()
+    rot = slice(3, 6) if (name in ("relpose", "prior", "finestep") and kinds[0] == "SE3") else None
+    pscale = 1e-7 if name == "scaled" else 1.0  # the accuracy bound scales with the program
     ratio = 0.0
     nontriv = False
     ops = 1
@@ -267,7 +287,7 @@ def _eval_jac(case):
         curv = 1.0
         if name in ("distance", "range", "spacing"):
             curv = 1.0 + 1.0 / max(_min_distance(name, e), 1e-3)
-        bound = 1e-5 * tsc * curv + 1e-8 * float(np.max(np.abs(e0))) + 1e-8 * absmax
+        bound = pscale * (1e-5 * tsc * curv + 1e-8 * absmax) + 1e-8 * float(np.max(np.abs(e0)))
         d = float(np.max(np.abs(J - Jn)))
         ratio = max(ratio, d / bound)
         if not d <= bound:
@@ -302,12 +322,12 @@ def _eval_jac(case):
         v0.pose = I.mk_pose(kinds[0], c0)
         if not (name in ("distance", "range", "spacing") and _min_distance(name, e) < 0.05):
             e1 = np.asarray(e.calc_error(), dtype=float).ravel()
-            if not (name in ("relpose", "prior") and kinds[0] == "SE2" and abs(abs(e1[2]) - math.pi) < 0.02):
+            if not (name in ("relpose", "prior", "finestep") and kinds[0] == "SE2" and abs(abs(e1[2]) - math.pi) < 0.02):
                 jacs2 = I.BaseEdge.calc_jacobians(e)
                 for vi, v in enumerate(verts):
                     _, Jn = D.edge_fd_jacobian(e, vi, angle_idx, rot)
                     curv = 1.0 + (1.0 / max(_min_distance(name, e), 1e-3) if name in ("distance", "range", "spacing") else 0.0)
-                    bound = 1e-5 * (tsc + 1.0) * curv + 1e-8 * float(np.max(np.abs(e1))) + 1e-8 * absmax
+                    bound = pscale * (1e-5 * (tsc + 1.0) * curv + 1e-8 * absmax) + 1e-8 * float(np.max(np.abs(e1)))
                     d = float(np.max(np.abs(np.asarray(jacs2[vi], dtype=float) - Jn)))
                     ratio = max(ratio, d / bound)
                     ops += 4 * v.pose.COMPACT_DIMENSIONALITY
